@@ -92,7 +92,7 @@ def fullSteps (c : HystFull.Cfg Float) (f : HystFull.Laws Float) (p : HystFull.S
   | _, [] => []
   | st, s :: rest =>
     let st' := HystFull.update c floatLits f p st s
-    fullShow c f p st' (HystFull.changed c floatLits f p st s) probes :: fullSteps c f p probes st' rest
+    fullShow c f p st' (HystFull.changed c floatLits p st s) probes :: fullSteps c f p probes st' rest
 
 def lawsOf (c : Config) (tD : PLParams Float) (uD sD : Points Float) (tI : PLParams Float) (uI sI : Points Float) :
     HystFull.Laws Float :=
